@@ -6,7 +6,7 @@ from . import gen_common as G
 from .gen_c20 import _interleave, _place_faults
 
 GROUPS = ["cycle_mem", "cycle_file", "mixed_cycle", "inspect", "stale_load", "declarative", "foreign_ctx"]
-SEAM_OPS = {"sc.foreign_ctx"}
+SEAM_OPS = {"sc.foreign_ctx", "sc.dump", "sc.load"}
 
 SRC_KINDS = ["voltage_source", "current_source", "ac_voltage_source", "ac_current_source", "rect_voltage_source",
              "rect_current_source", "complex_voltage_source", "complex_current_source"]
@@ -236,8 +236,8 @@ def plan(seed, overrides=None):
         "clients": rc.randint(2, 4),
         "steps_per_client": rc.randint(2, 8),
         "groups": sorted(rc.sample(GROUPS, rc.randint(2, len(GROUPS)))),
-        "nest_p": rc.choice([0.5, 0.9]),
-        "wrap_p": 0.0,
+        "nest_p": rc.choice([0.2, 0.5, 0.9]),
+        "wrap_p": rc.choice([0.0, 0.3]),
         "fault_mode": rc.choice(["none", "none", "io", "io", "interrupt", "mixed"]),
         "buffer_size": rc.choice([1, 3, 7, 64, 512, 8192]),
         "n_drawings": rc.randint(1, 3),
@@ -255,7 +255,8 @@ def plan(seed, overrides=None):
     scripts = [_script(S("client", c), c, world, counter) for c in range(cfg["clients"])]
     # load/deserialize are never run inside a foreign open `with Schematic()` block (DESIGN 4.C15)
     ok_inside = {"sc.create", "sc.translate", "sc.solve", "sc.serialize", "sc.dump"}
-    steps = _interleave(S("sched"), scripts, cfg, SEAM_OPS, nest_ok=lambda host, st: st["op"] in ok_inside)
+    steps = _interleave(S("sched"), scripts, cfg, SEAM_OPS,
+                        nest_ok=lambda host, st: st["op"] in ok_inside if host["op"] == "sc.foreign_ctx" else st["op"] != "sc.foreign_ctx")
     _place_faults_c15(S("faults"), steps, cfg)
     return {"property": "C15", "seed": seed, "config": cfg, "recipes": recipes, "steps": steps}
 
@@ -282,6 +283,9 @@ def _place_faults_c15(r, steps, cfg):
         if not free:
             return
         s = r.choice(free)
+        if s["op"] in ("sc.dump", "sc.load") and r.random() < 0.25:
+            s["fault"] = {"kind": "seam-raise", "at": 0, "exc": r.choice(["interrupt", "key", "type", "os", "memory"])}
+            continue
         from .gen_c20 import interrupt_k
         s["fault"] = {"kind": "interrupt", "k": interrupt_k(r, s) if r.random() < 0.7 else int(round(2 ** r.uniform(0, 13))),
                       "exc": r.choice(["interrupt", "interrupt", "interrupt", "memory", "key", "type", "os"])}
